@@ -15,6 +15,8 @@ import (
 	"github.com/cockroachdb/errors"
 	"github.com/cockroachdb/errors/errbase"
 
+	"google.golang.org/grpc/status"
+
 	"verif/mc/core"
 	"verif/mc/tm"
 )
@@ -360,7 +362,22 @@ func checkFormats(e error, lib bool) string {
 			}
 		}
 	}
-	// %#v: a Go-syntax dump
+	// %#v: a Go-syntax dump (not for the 64 KiB strings: the pretty-printer
+	// behind it takes seconds on them)
+	if len(txt) > 4096 {
+		return ""
+	}
+	// (the dump of a protobuf message follows its type descriptors: seconds
+	// per rendering; such errors get one dump instead of up to seven)
+	heavy := false
+	for _, n := range tm.Nodes(e) {
+		if _, ok := n.(interface{ ProtoMessage() }); ok {
+			heavy = true
+		}
+		if _, ok := n.(interface{ GRPCStatus() *status.Status }); ok {
+			heavy = true
+		}
+	}
 	gs := fmt.Sprintf("%#v", errors.Formattable(e))
 	base := strings.TrimPrefix(ty, "*")
 	if g, ok := e.(fmt.GoStringer); ok {
@@ -370,9 +387,29 @@ func checkFormats(e error, lib bool) string {
 	} else if !strings.Contains(gs, base) && !strings.Contains(gs, base[strings.LastIndexByte(base, '.')+1:]) {
 		return fail("gosyntax", "%%#v of a %s is not a Go-syntax dump naming the type: %q", ty, short(gs))
 	}
+	if heavy {
+		return ""
+	}
 	if lib {
 		if g2 := fmt.Sprintf("%#v", e); g2 != gs {
 			return fail("gosyntax-direct", "%%#v differs between e and Formattable(e)")
+		}
+	}
+	// '#' wins over '+' (fmt's own rule: %+#v is %#v), in any flag order and
+	// with the other flags around
+	plusSharp := []string{"%+#v", "%#+v", "%+-#v", "% +#v", "%+#10v"}
+	if len(tm.Nodes(e)) > 2 {
+		plusSharp = nil // (the Go-syntax dump of a deep error is expensive to print; the dispatch on the flags happens at the outermost layer)
+	}
+	for _, f := range plusSharp {
+		want := fmt.Sprintf(strings.Replace(f, "+", "", 1), errors.Formattable(e))
+		if got := fmt.Sprintf(f, errors.Formattable(e)); got != want {
+			return fail("gosyntax-plus", "fmt.Sprintf(%q, Formattable(e)) = %q, the same without '+' gives %q", f, short(got), short(want))
+		}
+		if lib {
+			if got := fmt.Sprintf(f, e); got != fmt.Sprintf(strings.Replace(f, "+", "", 1), e) {
+				return fail("gosyntax-plus-direct", "fmt.Sprintf(%q, e) differs from the same format without '+' (%T): %q", f, e, short(got))
+			}
 		}
 	}
 	return ""
